@@ -29,6 +29,12 @@ Theorem C19_swallowing_scopes : List.length swallow_scopes = 6 /\ forall c, In c
 Proof. split; [reflexivity|]. apply forallb_forall. vm_compute. reflexivity. Qed.
 Print Assumptions C19_swallowing_scopes.
 
+(* the reader starts every session from scratch: open() resets the five registries and each branch of fetch_or_create_root
+   assigns the root, unconditionally (7 rows) - what makes [load] a function of the file alone also for a re-used Workspace *)
+Theorem C19_session_state_reset : List.length session_sites = 7 /\ forall c, In c session_sites -> scope_okb c = true.
+Proof. split; [reflexivity|]. apply forallb_forall. vm_compute. reflexivity. Qed.
+Print Assumptions C19_session_state_reset.
+
 (* hence the extracted guards are the ones the proofs were written against *)
 Theorem C19_guards_as_proved : G = G0.
 Proof. apply guards_ok_eq. exact C19_reader_guards. Qed.
